@@ -50,6 +50,41 @@ def replay_wavevec(case):
     return ("ok", None, None, len(case["vecs"]) > 0)
 
 
+def large_default_sets(chk, tier, rng):
+    """direction B for the default set at half-widths far beyond MC_DensityModes' scope: the rows the real
+    choosewavevector returns are recorded and TraceWaveVec.tla decides membership and completeness in exact
+    integer arithmetic (a float 'is the norm an integer' test can only go wrong for large components)."""
+    from PyMatterSim.utils.wavevector import choosewavevector
+    plan = [(2, 338 + rng.randrange(0, 40), "F"), (2, 452 + rng.randrange(0, 60), "T"), (2, 400 + rng.randrange(0, 200), "x"),
+            (2, 300 + rng.randrange(0, 200), "y"), (3, 40 + rng.randrange(0, 20), "F"), (3, 60 + rng.randrange(0, 30), "T"),
+            (3, 80 + rng.randrange(0, 40), "z")]
+    if tier == "thorough":
+        plan += [(2, 700 + rng.randrange(0, 100), "F"), (2, 1000 + rng.randrange(0, 200), "T"), (3, 100 + rng.randrange(0, 20), "F")]
+    recs = []
+    for d, numofq, o in plan:
+        case = {"d": d, "numofq": numofq, "onlypositive": o}
+        try:
+            got = choosewavevector(d, numofq, opt_arg(o))
+        except Exception as e:
+            chk.violation(f"raises:{type(e).__name__}", dict(case, error=str(e)[:200]))
+            continue
+        got = np.asarray(got).reshape(-1, d)
+        if not np.array_equal(got, np.rint(got)):
+            chk.violation("DefaultSetCharacterisation:non-integer components", case)
+            continue
+        recs.append({"d": d, "numofq": numofq, "opt": o, "vecs": [[int(x) for x in v] for v in got]})
+    res, rejects = common.validate_trace_all("TraceWaveVec", recs, timeout=1800)
+    chk.add_tlc(res, "TraceWaveVec (default sets at large half-widths)")
+    bad = dict(rejects)
+    for i, rec in enumerate(recs):
+        if i in bad:
+            chk.violation("trace:DefaultSetCharacterisation:" + bad[i],
+                          {"d": rec["d"], "numofq": rec["numofq"], "onlypositive": rec["opt"], "rows_returned": len(rec["vecs"])})
+        else:
+            chk.ok(("W", rec["d"], rec["numofq"], rec["opt"]), sample={"choosewavevector": [rec["d"], rec["numofq"], rec["opt"]],
+                                                                      "rows": len(rec["vecs"])})
+
+
 def replay(case):
     if case.get("m") == "WaveVectors":
         return replay_wavevec(case)
@@ -178,7 +213,9 @@ def run(tier, replay=None):
                 "3 boxes with unequal edges x M in {3,4,5,6,8} x 1-2 frames x explicit lists and default sets), checks the C04 "
                 "clauses as invariants, emits integer circular correlations per vector and column; every case is replayed into "
                 "sq(...).getresults() / choosewavevector. B: seeded random configurations through TLC's trace mode and the real "
-                "code. Non-trivial = some expected value exceeds 1e-3 (for wave-vector cases: non-empty set).")
+                "code; default sets for numofq in the hundreds (2-D) / up to 120 (3-D) recorded from choosewavevector and decided "
+                "by TraceWaveVec.tla (membership and completeness in exact integers). "
+                "Non-trivial = some expected value exceeds 1e-3 (for wave-vector cases: non-empty set).")
     chk.assumptions = ["tolerance 6e-7: the library rounds per-vector values to 1e-6 before averaging",
                        "numofq = int(qrange L_max / pi) is decided with 333/106 < pi < 355/113 and skipped when the bounds disagree",
                        "cases in which two distinct |q| are closer than 5e-6 are skipped (the library groups by rounded floats)"]
@@ -217,6 +254,7 @@ def run(tier, replay=None):
             if mode == "trace" and len(g.cases) != len(recs):
                 raise common.MachineryError(f"trace mode: {len(g.cases)} cases for {len(recs)} records")
             collect(chk, cases, mode)
+        large_default_sets(chk, tier, rng)
         chk.exhaustive = tier == "thorough"
     finally:
         shutil.rmtree(tmp, ignore_errors=True)
